@@ -334,7 +334,7 @@ func (ecd Encoder) DecodeRingT(pT ring.Poly, scale rlwe.Scale, values IntegerSli
 
 	switch values := values.(type) {
 	case []uint64:
-		for i := range values {
+		for i := range values[:utils.Min(len(values), len(ecd.indexMatrix))] {
 			values[i] = tmp[ecd.indexMatrix[i]]
 		}
 	case []int64:
@@ -342,7 +342,7 @@ func (ecd Encoder) DecodeRingT(pT ring.Poly, scale rlwe.Scale, values IntegerSli
 		modulus := int64(ecd.parameters.PlaintextModulus())
 		modulusHalf := modulus >> 1
 		var value int64
-		for i := range values {
+		for i := range values[:utils.Min(len(values), len(ecd.indexMatrix))] {
 			/* #nosec G115 -- values <= 61 bits */
 			if value = int64(tmp[ecd.indexMatrix[i]]); value >= modulusHalf {
 				values[i] = value - modulus
@@ -474,7 +474,7 @@ func (ecd Encoder) Decode(pt *rlwe.Plaintext, values interface{}) (err error) {
 			modulusHalf := modulus >> 1
 
 			var value int64
-			for i := 0; i < N; i++ {
+			for i := 0; i < utils.Min(N, len(values)); i++ {
 				/* #nosec G115 -- values <= 61 bits */
 				if value = int64(ptT[i]); value >= modulusHalf {
 					values[i] = value - modulus
